@@ -1547,6 +1547,7 @@ class ApplicationServiceAccessPoint(ApplicationServiceElement, ServiceAccessPoin
             except Exception as err:
                 ApplicationServiceAccessPoint._exception("complex ack decoding error: %r", err)
                 xpdu = Error(errorClass=7, errorCode=57)  # communication, invalidTag
+                xpdu.update(apdu)
 
         elif isinstance(apdu, ErrorPDU):
             atype = error_types.get(apdu.apduService)
@@ -1560,6 +1561,7 @@ class ApplicationServiceAccessPoint(ApplicationServiceElement, ServiceAccessPoin
             except Exception as err:
                 ApplicationServiceAccessPoint._exception("error PDU decoding error: %r", err)
                 xpdu = Error(errorClass=0, errorCode=0)
+                xpdu.update(apdu)
 
         elif isinstance(apdu, RejectPDU):
             xpdu = apdu
